@@ -6,7 +6,8 @@
 (* is accepted iff the sequence of calls and the returned value are a      *)
 (* behaviour of Stream.tla.                                                *)
 (***************************************************************************)
-EXTENDS Stream, Json, IOUtils, TLCExt
+EXTENDS Stream, HashCodec, Json, IOUtils, TLCExt
+ToHexS(fv, h) == ToHex(fv, h, TRUE)
 
 Rec == ndJsonDeserialize(IOEnv.TRACE)
 VARIABLES l, s, v
@@ -60,7 +61,20 @@ TFileErr ==
     /\ (Ev.why = "missing" => Ev.r.e = "NotFound")
     /\ UNCHANGED <<s, v>>
 
-TraceNext == TBegin \/ TRead \/ TEnd \/ TFile \/ TFileErr
+\* the example program examples/hash-file.rs as a client of hash_file: one output line per file,
+\* "<T1 hash | TNULL | IOERR, left-aligned to the hash width> <file name>"
+PadTo(txt, n) == txt \o [i \in 1..(IF Len(txt) < n THEN n - Len(txt) ELSE 0) |-> 32]
+TExample ==
+    /\ IsEvent("example") /\ s.pc = "Idle"
+    /\ LET fv == VNormal
+           g  == GenUpdatePeriodic(fv, GenNew(fv), Ev.pat, 0, Ev.size)
+           r  == GenFinalize(fv, g, DefaultOptions)
+           word == IF Ev.missing THEN <<73, 79, 69, 82, 82>>                        \* "IOERR"
+                   ELSE IF r.ok THEN ToHexS(fv, r.h) ELSE <<84, 78, 85, 76, 76>>   \* "TNULL"
+       IN Ev.line = PadTo(word, 72) \o <<32>> \o Ev.name
+    /\ UNCHANGED <<s, v>>
+
+TraceNext == TBegin \/ TRead \/ TEnd \/ TFile \/ TFileErr \/ TExample
 TraceSpec == l = 1 /\ s = Idle /\ v = VNormal /\ [][TraceNext]_vars
 
 TraceAccepted ==
